@@ -255,6 +255,27 @@ def check_theorems(pid):
     return res
 
 
+def run_coqchk(pid):
+    """Thorough tier: the independent checker re-checks Props/<pid>.vo and everything it depends on (standard library
+    and Flocq included) and lists the axioms of that whole context.  Returns (problems, note)."""
+    with Lock("coq"):
+        rc, out = sh(f"timeout 3000 coqchk -o -silent -Q theories MV MV.Props.{pid}", cwd=COQ, timeout=3100)
+    if rc != 0:
+        return [f"coqchk failed on MV.Props.{pid}: " + out.strip()[-600:]], ""
+    m = re.search(r"\* Axioms:(.*?)\n\s*\n", out, re.S)
+    axioms = [a.strip() for a in (m.group(1).split("\n") if m else []) if a.strip() and a.strip() != "<none>"]
+    problems = []
+    for a in axioms:
+        if a.split(".")[-1] not in {x.split(".")[-1] for x in ALLOWED_AXIOMS}:
+            problems.append(f"coqchk: axiom outside the allow-list in the context of Props/{pid}: {a}")
+    for key in ("type-in-type", "unsafe (co)fixpoints", "positivity is assumed"):
+        mm = re.search(re.escape(key) + r":\s*(\S+)", out)
+        if mm and mm.group(1) != "<none>":
+            problems.append(f"coqchk: {key}: {mm.group(1)}")
+    return problems, "coqchk -o -silent MV.Props." + pid + ": context axioms = " + (", ".join(axioms) if axioms else "<none>") + \
+        "; no type-in-type, unsafe fixpoints or assumed positivity"
+
+
 def build_driver():
     """Re-extract and recompile the OCaml driver when any .vo is newer than it."""
     with Lock("coq"):
@@ -423,6 +444,12 @@ def decide(pid, tier, seed, replay=None):
         violations.append(dict(kind="broken-theorem", what="audit: " + pb, case=""))
     for pb in thm["problems"]:
         violations.append(dict(kind="broken-theorem", what=pb, case=""))
+    if tier == "thorough" and not replay and not thm["problems"]:
+        cpb, cnote = run_coqchk(pid)
+        for pb in cpb:
+            violations.append(dict(kind="broken-theorem", what=pb, case=""))
+        if cnote:
+            notes.append(cnote)
     if not ok_build and not thm["problems"]:
         notes.append("some other development failed to build (not a dependency of this property)")
     okd, dlog = build_driver()
